@@ -458,7 +458,12 @@ fn second_holder_case(i: u64, obs: &mut Obs) -> CaseResult {
     const SLOT: i64 = 300;
     let from_polled = i & 1 == 0;
     let to_self = i & 2 != 0;
-    let which = (i >> 2) % 6;
+    let which = (i >> 2) % 8;
+    // which 6, 7: the station waits for the reply to an application request (the 1st / 3rd one)
+    let mut asker = Asker { target: 9 };
+    let mut idle = ();
+    let app: &mut dyn profirust::fdl::FdlApplication = if which >= 6 { &mut asker } else { &mut idle };
+    let mut app_requests = 0u64;
     let mut w = World::new(TS, 12, profirust::Baudrate::B1500000, SLOT as u16, 1, None);
     let mut seen = 0usize;
     let mut polls = 0u64;
@@ -469,7 +474,7 @@ fn second_holder_case(i: u64, obs: &mut Obs) -> CaseResult {
     let t_end = 400 * w.bit_us(SLOT) + 40 * t_lost;
     let mut after: Vec<(i64, Vec<u8>)> = vec![];
     while w.now < t_end {
-        w.step(7);
+        w.run(7, app);
         let recs = w.sent_since(seen);
         seen = w.trace_len();
         for r in recs {
@@ -482,6 +487,28 @@ fn second_holder_case(i: u64, obs: &mut Obs) -> CaseResult {
             }
             match rc::decode_one(&r.bytes) {
                 Some(RefFrame::Token { .. }) => own_tokens += 1,
+                Some(RefFrame::Data { dsap: Some(40), da, .. }) if which >= 6 => {
+                    app_requests += 1;
+                    if app_requests == [1, 3][(which - 6) as usize] {
+                        let end = (r.end_ns + 999) / 1000;
+                        let sa = if from_polled { da } else { 10 };
+                        let to = if to_self { TS } else { 2 };
+                        while w.now < end + w.bit_us(40) {
+                            w.run(7, app);
+                        }
+                        w.bus.inject(ENV, w.now, &token(sa, to));
+                        injected_at = Some(((w.bus.0.borrow().trace.last().unwrap().end_ns + 999) / 1000, sa));
+                        seen = w.trace_len();
+                    } else {
+                        // the peer answers properly
+                        let end = (r.end_ns + 999) / 1000;
+                        while w.now < end + w.bit_us(30) {
+                            w.run(7, app);
+                        }
+                        w.bus.inject(ENV, w.now, &rc::encode(&RefFrame::Data { da: TS, sa: da, dsap: Some(41), ssap: Some(40), fc: 0x08, pdu: vec![1] }));
+                        seen = w.trace_len();
+                    }
+                }
                 Some(RefFrame::Data { fc: 0x49, da, dsap: None, ssap: None, .. }) => {
                     // polls 0.. belong to the scan after the claim (two claim tokens before), the
                     // regular ones follow after the first token pass to itself
@@ -499,7 +526,7 @@ fn second_holder_case(i: u64, obs: &mut Obs) -> CaseResult {
                         let sa = if sa == TS { (sa + 1) % 12 } else { sa };
                         let to = if to_self { TS } else { 9 };
                         while w.now < end + w.bit_us(40) {
-                            w.step(7);
+                            w.run(7, app);
                         }
                         w.bus.inject(ENV, w.now, &token(sa, to));
                         injected_at = Some(((w.bus.0.borrow().trace.last().unwrap().end_ns + 999) / 1000, sa));
@@ -522,14 +549,36 @@ fn second_holder_case(i: u64, obs: &mut Obs) -> CaseResult {
     // withdrawal: nothing before the silence time-out has run out (a token addressed to the station
     // by a stranger is a first offer and not to be used either)
     let early: Vec<String> = after.iter().filter(|(dt, _)| *dt < t_lost - w.bit_us(20)).map(|(dt, b)| format!("{} us: {}", dt, crate::props::c09::hex(b))).collect();
-    ensure!(early.is_empty(), "second-holder-not-withdrawn", "station #{TS} heard the token telegram of #{sa} while it was waiting for the reply to its GAP poll (a second token holder) but went on transmitting before its silence time-out of {} us had run out: {:?}", t_lost, early);
+    ensure!(early.is_empty(), "second-holder-not-withdrawn", "station #{TS} heard the token telegram of #{sa} while it was waiting for the reply to its {} (a second token holder) but went on transmitting before its silence time-out of {} us had run out: {:?}", if which >= 6 { "application request" } else { "GAP poll" }, t_lost, early);
     // and it must come back afterwards (claim) - the bus must not stay silent
     ensure!(!after.is_empty(), "silent-after-withdrawal", "station #{TS} never transmitted again within two silence time-outs after it withdrew");
-    obs.label(if which < 3 { "during-claim-scan" } else { "during-regular-poll" });
+    obs.label(if which < 3 { "during-claim-scan" } else if which < 6 { "during-regular-poll" } else { "during-application-request" });
     obs.label(if from_polled { "token-from-polled-address" } else { "token-from-third-address" });
     obs.nontrivial(i);
     obs.sample(|| json!({"polled_reply": format!("token {} -> {}", sa, if to_self { TS } else { 9 }), "poll_index": which, "first_transmission_after_us": after.first().map(|x| x.0)}));
     Ok(())
+}
+
+/// Application that always wants to send one SRD request to `target`.
+struct Asker {
+    target: u8,
+}
+impl profirust::fdl::FdlApplication for Asker {
+    fn transmit_telegram(&mut self, _now: profirust::time::Instant, fdl: &profirust::fdl::FdlActiveStation, tx: profirust::fdl::TelegramTx, _hp: profirust::fdl::HighPrioOnly) -> Option<profirust::fdl::TelegramTxResponse> {
+        Some(tx.send_data_telegram(
+            profirust::fdl::DataTelegramHeader {
+                da: self.target,
+                sa: fdl.parameters().address,
+                dsap: Some(40),
+                ssap: Some(41),
+                fc: profirust::fdl::FunctionCode::Request { fcb: profirust::fdl::FrameCountBit::First, req: profirust::fdl::RequestType::SrdLow },
+            },
+            1,
+            |b| b[0] = 0x11,
+        ))
+    }
+    fn receive_reply(&mut self, _now: profirust::time::Instant, _fdl: &profirust::fdl::FdlActiveStation, _addr: u8, _telegram: profirust::fdl::Telegram) {}
+    fn handle_timeout(&mut self, _now: profirust::time::Instant, _fdl: &profirust::fdl::FdlActiveStation, _addr: u8) {}
 }
 
 pub fn property() -> Property {
@@ -543,12 +592,12 @@ pub fn property() -> Property {
         ],
         subchecks: vec![
             SubCheck::tape("recovery", "fault plan after ring formation, then fault-free recovery", recovery_case),
-            SubCheck::index("second_holder", "a station waiting for a GAP reply hears another station's token telegram (second token holder): it withdraws until its silence time-out (24 constructed scenarios)", second_holder_case),
+            SubCheck::index("second_holder", "a station waiting for the reply to a GAP poll or an application request hears another station's token telegram (second token holder): it withdraws until its silence time-out (32 constructed scenarios: during the scan after a claim, a regular GAP poll, an application request)", second_holder_case),
             SubCheck::index("claim_race", "two stations whose silence time-outs run out in the same instant (constructed; probe of the known finding claim-race-lockstep)", claim_race_case),
         ],
         plan: |tier| match tier {
-            Tier::Quick => vec![Step::Enumerate { kind: "second_holder", count: 24 }, Step::Enumerate { kind: "claim_race", count: 12 }, Step::Pbt { kind: "recovery", cases: 800, max_len: 160 }],
-            Tier::Thorough => vec![Step::Enumerate { kind: "second_holder", count: 24 }, Step::Enumerate { kind: "claim_race", count: 12 }, Step::Pbt { kind: "recovery", cases: 8000, max_len: 160 }],
+            Tier::Quick => vec![Step::Enumerate { kind: "second_holder", count: 32 }, Step::Enumerate { kind: "claim_race", count: 12 }, Step::Pbt { kind: "recovery", cases: 800, max_len: 160 }],
+            Tier::Thorough => vec![Step::Enumerate { kind: "second_holder", count: 32 }, Step::Enumerate { kind: "claim_race", count: 12 }, Step::Pbt { kind: "recovery", cases: 8000, max_len: 160 }],
         },
         hang_is_violation: true,
         hang_limit_s: 900,
